@@ -1201,6 +1201,41 @@ def run(sync, idx):
 ''', [("run", [(True, True), (False, False), (0, 1)])])
 
 
+# ---- a new base class holding the state set-up: super().__init__(..) in the subclass initialiser
+case('''
+class _Ledger:
+    """book-keeping half"""
+    def __init__(self, limit=None):
+        self.limit = limit or 100
+        self.used = 0
+        self.entries = {}
+
+    def charge(self, k, n):
+        self.entries[k] = n
+        self.used += n
+        return self.fits()
+
+class Cache(_Ledger):
+    def __init__(self, limit=None, root="r"):
+        self.root = root
+        super().__init__(limit=limit)
+        self.log = [self.limit]
+
+    def fits(self):
+        return self.used <= self.limit
+
+class Small(Cache):
+    def __init__(self):
+        super().__init__(limit=5, root="s")
+
+def run(limit, n):
+    c = Cache(limit)
+    ok = c.charge("a", n)
+    s = Small()
+    return ok, c.used, c.limit, c.root, c.log, s.charge("z", 9), s.root, isinstance(s, Cache)
+''', [("run", [(None, 7), (3, 7)])])
+
+
 def outcome(ns, fn, args):
     import copy
     try:
